@@ -51,7 +51,7 @@ def run(ctx):
         cases.append(("garbage-query", g, rng.choice(RECORDS4)))
     for g in kfl.garbage_strings(rng, ngarb):
         cases.append(("garbage-record", rng.choice(['a', 'a.json().b', 'true', 'a.xml().r == "1"', 'redact("a")', 'a.* == 1 and b..c']), g))
-    depth = 2000 if quick else 100000
+    depth = 100000          # beyond what the Go stack (1 GB) carries if the parser recursed that deep
     for i, form in enumerate(kfl.DEEP_FORMS):
         d = min(depth, 20000) if i == 6 else depth          # the long dotted path is quadratic in the parser
         cases.append(("deep-query", form(d), '{"a":1}'))
